@@ -77,6 +77,7 @@ type FnExec struct {
 	merge        bool
 	pending      map[string]*pendingJoin
 	pendingOrder []string
+	flat         map[*Loop]int // loop -> number under which the contract of fx.fn knows it (loops of inlined helpers included)
 }
 
 type unsupportedErr struct{ msg string }
@@ -415,6 +416,9 @@ func (fx *FnExec) bindFail(c *Clause, err error) {
 // envFor builds the translation environment for clauses of fn's contract at state st.
 func (fx *FnExec) envFor(st *State, fn *ssa.Function, results []Val) *Env {
 	env := &Env{fx: fx, cur: st, old: fx.entry, vars: map[string]Val{}, fc: fx.eng.contractOf(fn)}
+	if env.fc == nil && fn != fx.fn {
+		env.fc = fx.contractFor(fn)
+	}
 	if fn.Pkg != nil {
 		env.pkg = fn.Pkg.Pkg
 	} else if fn.Parent() != nil && fn.Parent().Pkg != nil {
@@ -664,7 +668,7 @@ func (fx *FnExec) execBlock(st *State, b *ssa.BasicBlock, pred *ssa.BasicBlock, 
 		fx.havocLoop(st, lp)
 		st.active[lp] = ctx
 		fx.assumeInvariants(st, lp)
-		fx.emit(st, &Obligation{Kind: "vacuity", Name: fmt.Sprintf("loop%d-invariant-sat", lp.ordinal), Goal: "false", Canary: true})
+		fx.emit(st, &Obligation{Kind: "vacuity", Name: fmt.Sprintf("loop%d-invariant-sat", fx.ord(lp)), Goal: "false", Canary: true})
 	} else {
 		fx.evalPhis(st, b, pred)
 		if fx.merge && len(b.Preds) >= 2 && !fx.noMergeAt(b) {
@@ -787,13 +791,13 @@ func (fx *FnExec) siteName(in ssa.Instruction) string {
 // ---------- invariants ----------
 
 func (fx *FnExec) invClauses(lp *Loop) []*Clause {
-	fc := fx.eng.contractOf(lp.fn)
+	fc := fx.contractFor(lp.fn)
 	if fc == nil {
 		return nil
 	}
 	var out []*Clause
 	for _, c := range fc.Invs {
-		if c.Loop == lp.ordinal {
+		if c.Loop == fx.ord(lp) {
 			out = append(out, c)
 		}
 	}
@@ -885,7 +889,7 @@ func (fx *FnExec) checkInvariants(st *State, lp *Loop, kind string) {
 			fx.bindFail(c, err)
 			continue
 		}
-		fx.emit(st, &Obligation{Kind: kind, Name: fmt.Sprintf("loop%d.%s", lp.ordinal, c.Name), Props: c.Props, Goal: f, Clause: c.Name})
+		fx.emit(st, &Obligation{Kind: kind, Name: fmt.Sprintf("loop%d.%s", fx.ord(lp), c.Name), Props: c.Props, Goal: f, Clause: c.Name})
 	}
 }
 
@@ -1284,13 +1288,13 @@ func (fx *FnExec) resolveAt(st *State, ret ssa.Instruction, name string) (Val, b
 
 // ghostUpdates executes the "loop k ghost G[idx] = val" clauses when the body of loop k is entered.
 func (fx *FnExec) ghostUpdates(st *State, lp *Loop) {
-	fc := fx.eng.contractOf(lp.fn)
-	if fc == nil || lp.fn != fx.fn {
+	fc := fx.contractFor(lp.fn)
+	if fc == nil || fc != fx.fc {
 		return
 	}
 	env := fx.loopEnv(st, lp)
 	for _, gu := range fc.GhostUpd {
-		if gu.Loop != lp.ordinal || gu.Loop < 0 {
+		if gu.Loop != fx.ord(lp) || gu.Loop < 0 {
 			continue
 		}
 		key := "fg:" + fc.Key + ":" + gu.Name
@@ -1349,6 +1353,13 @@ func (fx *FnExec) havocLoop(st *State, lp *Loop) {
 					st.assume("(or (<= (+ " + n + " 1) " + bv.T + ") (< " + bv.T + " 0))")
 				}
 			}
+		} else if ph == counterPhi(lp) {
+			// "for i := 0; i < B; i++" with B fixed during the loop: 0 <= i, and i <= B unless B is negative
+			// (inductive for any body that does not assign i; the phi has no other incoming definition)
+			st.assume("(>= " + n + " 0)")
+			if bt, ok := fx.counterBound(st, lp, ph); ok {
+				st.assume("(or (<= " + n + " " + bt + ") (< " + bt + " 0))")
+			}
 		}
 	}
 	touch := map[string]bool{}
@@ -1400,11 +1411,11 @@ func (fx *FnExec) havocLoop(st *State, lp *Loop) {
 			st.assume(fx.allocatedInv(st, st.vals[ph]))
 		}
 	}
-	if fc := eng.contractOf(lp.fn); fc != nil && lp.fn == fx.fn {
+	if fc := fx.contractFor(lp.fn); fc != nil && fc == fx.fc {
 		for _, gu := range fc.GhostUpd {
 			inner := false
 			for _, l2 := range fx.loopsOf(lp.fn) {
-				if l2.ordinal == gu.Loop && lp.blocks[l2.header] {
+				if fx.ord(l2) == gu.Loop && lp.blocks[l2.header] {
 					inner = true
 				}
 			}
@@ -2377,14 +2388,143 @@ found:
 
 // noMergeAt: the block lies in the body of a loop whose paths the contract asks to enumerate.
 func (fx *FnExec) noMergeAt(b *ssa.BasicBlock) bool {
-	fc := fx.eng.contractOf(b.Parent())
+	fc := fx.contractFor(b.Parent())
 	if fc == nil || len(fc.NoMergeLoop) == 0 {
 		return false
 	}
 	for _, lp := range fx.loopsOf(b.Parent()) {
-		if fc.NoMergeLoop[lp.ordinal] && lp.blocks[b] && lp.header != b {
+		if fc.NoMergeLoop[fx.ord(lp)] && lp.blocks[b] && lp.header != b {
 			return true
 		}
 	}
 	return false
+}
+
+// counterBound: the term of B when the loop is "for i := 0; i < B; i++" and B cannot change during the
+// loop (a constant, a value defined before the loop, or len of such a value).
+func (fx *FnExec) counterBound(st *State, lp *Loop, ph *ssa.Phi) (string, bool) {
+	iff, ok := lp.header.Instrs[len(lp.header.Instrs)-1].(*ssa.If)
+	if !ok {
+		return "", false
+	}
+	cmp, ok := iff.Cond.(*ssa.BinOp)
+	if !ok || cmp.Op != token.LSS || cmp.X != ssa.Value(ph) {
+		return "", false
+	}
+	outside := func(v ssa.Value) bool {
+		switch x := v.(type) {
+		case *ssa.Const, *ssa.Parameter:
+			return true
+		case ssa.Instruction:
+			return !lp.blocks[x.Block()]
+		}
+		return false
+	}
+	if outside(cmp.Y) {
+		if _, isC := cmp.Y.(*ssa.Const); isC {
+			return fx.val(st, cmp.Y).T, true
+		}
+		if v, ok := st.vals[cmp.Y]; ok {
+			return v.T, true
+		}
+		return "", false
+	}
+	if call, ok := cmp.Y.(*ssa.Call); ok {
+		if b, ok := call.Common().Value.(*ssa.Builtin); ok && b.Name() == "len" && outside(call.Common().Args[0]) {
+			arg := call.Common().Args[0]
+			if _, isMap := arg.Type().Underlying().(*types.Map); isMap {
+				return "", false // a map's length can change while the value stays the same
+			}
+			if v, ok := st.vals[arg]; ok {
+				return fx.lenOf(st, v).T, true
+			}
+		}
+	}
+	return "", false
+}
+
+// ord: the number under which the contract of the function under verification knows a loop. Loops are
+// numbered in source order of fx.fn; a call to a helper of the package that has no contract of its own (it is
+// executed inline) contributes the helper's loops at the position of the call. On a tree where no such helper
+// has loops this is the plain per-function numbering; after an "extract function" refactoring that moves
+// annotated loops into a new helper the numbers stay the same.
+func (fx *FnExec) ord(lp *Loop) int {
+	if fx.flat == nil {
+		fx.buildFlat()
+	}
+	if o, ok := fx.flat[lp]; ok {
+		return o
+	}
+	return lp.ordinal
+}
+
+func (fx *FnExec) buildFlat() {
+	fx.flat = map[*Loop]int{}
+	if fx.fc == nil {
+		return
+	}
+	n := 0
+	seen := map[*ssa.Function]bool{}
+	var walk func(fn *ssa.Function, depth int)
+	walk = func(fn *ssa.Function, depth int) {
+		seen[fn] = true
+		type item struct {
+			pos    token.Pos
+			lp     *Loop
+			callee *ssa.Function
+		}
+		var items []item
+		for _, lp := range fx.loopsOf(fn) {
+			if lp.stmt != nil {
+				items = append(items, item{pos: lp.stmt.Pos(), lp: lp})
+			}
+		}
+		if depth < 3 {
+			for _, b := range fn.Blocks {
+				for _, in := range b.Instrs {
+					c, ok := in.(*ssa.Call)
+					if !ok {
+						continue
+					}
+					callee, ok := c.Common().Value.(*ssa.Function)
+					if !ok || seen[callee] || !fx.eng.ours(callee) || len(callee.Blocks) == 0 || fx.eng.contractOf(callee) != nil || !c.Pos().IsValid() {
+						continue
+					}
+					if len(fx.loopsOf(callee)) == 0 {
+						continue
+					}
+					items = append(items, item{pos: c.Pos(), callee: callee})
+				}
+			}
+		}
+		sort.SliceStable(items, func(i, j int) bool { return items[i].pos < items[j].pos })
+		for _, it := range items {
+			if it.lp != nil {
+				n++
+				fx.flat[it.lp] = n
+			} else if !seen[it.callee] {
+				walk(it.callee, depth+1)
+			}
+		}
+	}
+	walk(fx.fn, 0)
+}
+
+// contractFor: the contract whose loop clauses describe lp: its function's own, or - for a helper without a
+// contract that is executed inline - the contract of the function under verification.
+func (fx *FnExec) contractFor(fn *ssa.Function) *FuncContract {
+	if fc := fx.eng.contractOf(fn); fc != nil {
+		return fc
+	}
+	if fn != fx.fn {
+		if fx.flat == nil {
+			fx.buildFlat()
+		}
+		for lp := range fx.flat {
+			if lp.fn == fn {
+				return fx.fc
+			}
+		}
+	}
+	return nil
 }
